@@ -47,6 +47,7 @@ fn main() {
             "mailmap" => replay_one(&suites::identity::mailmap_suite(), &v["input"], &mut model),
             "keepcommit" => replay_one(&suites::commit::Keep, &v["input"], &mut model),
             "freshness" => replay_one(&suites::sanity::Fresh, &v["input"], &mut model),
+            "striplookup" => replay_one(&suites::striplookup::suite(), &v["input"], &mut model),
             "topn" => replay_one(&suites::analyze::topn_suite(), &v["input"], &mut model),
             "normdetect" => replay_one(&suites::analyze::normalize_suite(), &v["input"], &mut model),
             "unpushed" => replay_one(&suites::sanity::Unpushed, &v["input"], &mut model),
@@ -75,6 +76,7 @@ fn main() {
             "mailmap" => vec![suites::identity::run_mailmap(&tier, seed, &mut model)],
             "sanity" => suites::sanity::run(&tier, seed, &mut model),
             "analyze" => suites::analyze::run_analyze(&tier, seed, &mut model),
+            "striplookup" => suites::striplookup::run(&tier, seed, &mut model),
             "detect" => suites::analyze::run_detect(&tier, seed, &mut model),
             "commit" => vec![suites::commit::run_keep(&tier, seed, &mut model), suites::commit::run_parents(&tier, seed, &mut model), suites::commit::run_misc(&tier, seed, &mut model)],
             other => {
